@@ -32,6 +32,8 @@ def run(ctx, db, tier):
     interval_ident(ctx, db)
     by_value(ctx, db)
     destructor_joins(ctx, db)
+    sleep_through_heap(ctx, db)
+    interval_owns_params(ctx, db)
 
 
 def op(ev):
@@ -154,6 +156,16 @@ def justified_pop(ctx, db):
                     just = False
         if npop == 0:
             raise Broken('get_expired_lk no longer pops: anchor changed')
+        # the function answers "next time point = top._tp" when nothing is due: a caller that comes back at exactly that time (the worker's
+        # wait_until, a manual event loop driven by the reported time) must then be handed the entry, so "due" is tp <= now, not tp < now
+        strict = None
+        for tr in trs:
+            for i, it in enumerate(tr):
+                if it.k == 'branch' and _due_or_cancelled(tr, i) == 'due-strict':
+                    strict = strict or tr
+        ctx.ob(rid, f, f['key'], strict is None, 'an entry is due when its time point is reached (tp <= now), not only after it',
+               desc='the due test is strict (tp < now): at the very time point get_expired answers "wake me at now" instead of handing the sleeper out - the caller spins or oversleeps',
+               trace=fmt_trace(strict) if strict else None)
         ctx.ob(rid, f, f['key'], bad is None, 'each pop justified by due-or-cancelled' + ('' if not bad else ' -- ' + bad[0]), desc=bad[0] if bad else None, trace=fmt_trace(bad[1]) if bad else None)
         outcomes = set()
         for tr in trs:
@@ -461,3 +473,43 @@ def destructor_joins(ctx, db):
         if n == 0 and not bad:
             bad = 'no path stops a started worker'
         ctx.ob(rid, f, f['key'], bad is None, 'request_stop then wait iff a worker was started' + ('' if not bad else ' -- ' + bad), desc=bad)
+
+
+def sleep_through_heap(ctx, db):
+    """time-point order is the order of the heap: a sleep that is completed without entering the heap (an "already reached" shortcut) overtakes
+    overdue sleepers with earlier time points and never yields to the scheduler"""
+    rid = ctx.rule('C12.sleep-through-heap', 'PATHS', 'scheduler::sleep_until: on every path the returned future is built from a closure that hands its promise to schedule() exactly once; no path '
+                   'answers with an already resolved future (sleepers complete in time-point order only if every one of them passes through the heap)', floor=1)
+    T = htracer(db)
+    for f in db.need('cocls::scheduler::sleep_until')[:1]:
+        trs = [t for t in T.traces(f) if live(t)]
+        ctx.paths(rid, len(trs))
+        bad = None
+        lams = [lf for lf in lambdas_of(db, 'cocls::scheduler::sleep_until')]
+        sched = {lf['key'] for lf in lams if all(sum(1 for c in calls(t) if norm(c.get('callee')) == 'cocls::scheduler::schedule') == 1 for t in T.traces(lf) if live(t)) and any(live(t) for t in T.traces(lf))}
+        for tr in trs:
+            made = [it for it in tr if it.k == 'lambda' and it.get('fn_key') in sched]
+            direct = [c for c in calls(tr) if norm(c.get('callee')) in ('cocls::future::set_value', 'cocls::future::set_exception', 'cocls::future::set_not_value')]
+            if direct:
+                bad = bad or ('a path answers with an already resolved future (%s): that sleep bypasses the heap and overtakes earlier, overdue sleepers' % norm(direct[0].get('callee')).split('::')[-1], tr)
+            elif len(made) != 1:
+                bad = bad or ('a path does not build the future from a closure that schedules its promise exactly once', tr)
+        ctx.ob(rid, f, f['key'], bad is None and bool(trs), 'every sleep enters the heap' + ('' if not bad else ' -- ' + bad[0]), desc=bad[0] if bad else None, trace=fmt_trace(bad[1]) if bad else None)
+    for f in db.need('cocls::scheduler::sleep_for')[:1]:
+        trs = [t for t in T.traces(f) if live(t)]
+        ok = bool(trs) and all(sum(1 for c in calls(t) if norm(c.get('callee')) == 'cocls::scheduler::sleep_until' and c.get('depth', 0) == 0) == 1 for t in trs)
+        ctx.ob(rid, f, f['key'], ok, 'sleep_for is sleep_until(now + duration)', desc='sleep_for does not go through sleep_until exactly once')
+
+
+def interval_owns_params(ctx, db):
+    """interval() is a generator coroutine: it starts lazily, so its parameters are read long after the call expression that created it has
+    ended - a reference parameter (the stop token in particular, usually a temporary or a default argument) dangles by then"""
+    rid = ctx.rule('C12.interval-owns-its-arguments', 'TYPE', 'scheduler::interval (lazily started coroutine): every parameter is taken by value, so the stop token through which the pending '
+                   'sleep is cancelled lives in the coroutine frame', floor=1)
+    seen = set()
+    for f in db.need('cocls::scheduler::interval'):
+        if f['key'] in seen:
+            continue
+        seen.add(f['key'])
+        refs = [p['name'] + ': ' + p['type'] for p in f['params'] if p['type'].rstrip().endswith('&')]
+        ctx.ob(rid, f, f['key'], not refs, 'all parameters of interval() are by value' + ('' if not refs else ' -- by reference: ' + ', '.join(refs)), desc='interval() takes %s by reference' % ', '.join(r.split(':')[0] for r in refs) if refs else None)
